@@ -13,6 +13,8 @@ var commands = map[string]func([]string){
 	"window":    cmdWindow,
 	"mocklife":  cmdMockLife,
 	"stability": cmdStability,
+	"registry":  cmdRegistry,
+	"regreplay": cmdRegReplay,
 }
 
 func main() {
